@@ -273,6 +273,7 @@ def havoc(eng, reason='external call', only=None):
                 arr = z3.Const('H_%s_%s!h%d_%d' % (cname, f, eng.path_id, n), z3.ArraySort(I, T.sort_of(ty)))
                 st.heap[(cname, f)] = arr
                 st.ghost.setdefault('arr_nalloc', {})[arr.get_id()] = st.ghost.get('nalloc', 0)
+    preserve_private(eng, old)
     # monotone ghost facts survive a havoc (a fired Deferred stays fired, a cancelled/called timer stays inactive)
     for (cname, f), mono in MONOTONE.items():
         if (cname, f) in old:
@@ -283,6 +284,56 @@ def havoc(eng, reason='external call', only=None):
                 a_new = z3.Select(field_array(eng, cname, f), ref)
                 eng.assume(z3.Implies(a_old, a_new) if mono == 'up' else z3.Implies(z3.Not(a_old), z3.Not(a_new)))
     return old
+
+
+def preserve_private(eng, old):
+    """DETACHED Deferreds: a local the contract declares private (`private_locals`) holds a Deferred that has been taken out
+    of every field before the excursion (proved here: it differs from every Deferred-typed field of the unit's objects).
+    Code running during the excursion reaches Deferreds only through those fields, so the detached one keeps its state.
+    (Assumption: application callbacks do not fire afkak's internal Deferreds.)"""
+    c = eng.contract
+    names = c.extra.get('private_locals', []) if c is not None else []
+    fr = getattr(eng, 'cur_frame', None)
+    if not names or fr is None:
+        return
+    cur = eng.st.heap
+    for nm in names:
+        v = fr.lookup(nm)
+        if isinstance(v, V) and v.ty == ('opt', ('ref', 'Deferred')):
+            v = T.opt_val(v)
+        if not isinstance(v, V) or v.ty != ('ref', 'Deferred'):
+            continue
+        # privacy obligation, evaluated in the heap BEFORE the havoc
+        eng.st.heap = old
+        try:
+            conds = []
+            for o in eng.st.ghost.get('unit_objs', []):
+                k = KLASSES[o.ty[1]]
+                for f, (ty, mut) in k.fields.items():
+                    if ty == ('opt', ('ref', 'Deferred')):
+                        fv = heap_read_raw(eng, o, f)
+                        conds.append(z3.Or(T.is_none(fv), T.opt_val(fv).t != v.t))
+                    elif ty == ('ref', 'Deferred'):
+                        conds.append(heap_read_raw(eng, o, f).t != v.t)
+        finally:
+            eng.st.heap = cur
+        n = eng.callcount.get('priv', 0) + 1
+        eng.callcount['priv'] = n
+        eng.prove('private#%d:%s-is-detached' % (n, nm), z3.And(conds) if conds else z3.BoolVal(True), kind='pre')
+        for fld in ('called', 'failed'):
+            if ('Deferred', fld) in old:
+                eng.assume(z3.Select(field_array(eng, 'Deferred', fld), v.t) == z3.Select(old[('Deferred', fld)], v.t))
+        # ... and nobody can have stored it back into a field
+        for o in eng.st.ghost.get('unit_objs', []):
+            k = KLASSES[o.ty[1]]
+            for f, (ty, mut) in k.fields.items():
+                if not mut:
+                    continue
+                if ty == ('opt', ('ref', 'Deferred')):
+                    fv = heap_read_raw(eng, o, f)
+                    eng.assume(z3.Or(T.is_none(fv), T.opt_val(fv).t != v.t))
+                elif ty == ('ref', 'Deferred'):
+                    eng.assume(heap_read_raw(eng, o, f).t != v.t)
 
 
 MONOTONE = {('Deferred', 'called'): 'up', ('DelayedCall', 'is_active'): 'down'}
